@@ -64,6 +64,7 @@ type FuncCtx struct {
 	pcParts        map[string][]string
 	namedFuns      map[string]bool
 	pureGround     bool
+	concrete       bool // witness search: parameters and results are constants
 	pcAnd          map[string][2]string // pc name -> (narrowed pc, narrowing conditions)
 	nclosure       int
 	heapInit       map[string]Term
